@@ -581,6 +581,43 @@ func c16Huge(c *fw.Ctx, idx int) {
 	}
 }
 
+// c16Giants: clones of 2^23 .. 2^24 ordinates and a little more (a copy shared out
+// between goroutines or made in very large blocks starts somewhere up there).
+func c16Giants(c *fw.Ctx, idx int) {
+	r := c.R
+	n := 1<<uint(23+idx%2) + []int{0, 1, 4, 6, 12, 20, 28, 36, 100, 1000}[r.Intn(10)]
+	layout := []geom.Layout{geom.XY, geom.XYZ, geom.XYZM}[r.Intn(3)]
+	n -= n % layout.Stride()
+	flat := make([]float64, n)
+	for i := range flat {
+		flat[i] = float64(i%9973) + 0.25
+	}
+	t := geom.NewLineStringFlat(layout, flat)
+	c.SetInput(map[string]any{"type": "LineString", "layout": layout.String(), "ordinates": n, "ordinate_i": "(i mod 9973) + 0.25"})
+	var cl *geom.LineString
+	if c.Guard("panic", func() { cl = t.Clone() }) {
+		return
+	}
+	c.Eval(1)
+	c.Count("giant_clones")
+	c.Distinct(fmt.Sprintf("giant/%s/%d", layout, n))
+	cf := cl.FlatCoords()
+	if len(cf) != n {
+		c.Fail("clone-not-equal", "clone of %d ordinates has %d", n, len(cf))
+		return
+	}
+	for i := range cf {
+		if cf[i] != float64(i%9973)+0.25 {
+			c.Fail("clone-not-equal", "clone of a LineString of %d ordinates: ordinate %d is %v, the original's is %v", n, i, cf[i], flat[i])
+			return
+		}
+	}
+	cf[n-1], cf[0], cf[n/2] = -1, -1, -1
+	if flat[n-1] == -1 || flat[0] == -1 || flat[n/2] == -1 {
+		c.Fail("shared-storage", "writing the clone of %d ordinates shows in the original", n)
+	}
+}
+
 // (d) every length: geometries of exactly idx coordinates for idx = 0, 1, 2, ...
 // in strides 2, 3, 4 and four types - a copy made in blocks of any size has its
 // boundary at some length, and no sampling of "round" sizes knows which.
@@ -656,6 +693,7 @@ func init() {
 			{Name: "geometries", Quick: 120000, Thorough: 8000000, Run: c16Geoms},
 			{Name: "coord-bounds", Quick: 60000, Thorough: 2000000, Run: c16CoordBounds},
 			{Name: "huge", Quick: 48, Thorough: 4800, Chunk: 3, Run: c16Huge},
+			{Name: "giants", Quick: 6, Thorough: 40, Chunk: 1, Run: c16Giants},
 			{Name: "every-length", Quick: 12001, Thorough: 40001, Chunk: 50, Run: c16EveryLength, Exhaustive: "every length from 0 to the class count in coordinates, strides 2-4, LineString/MultiPoint/Polygon/MultiPolygon"},
 		},
 		Require: []string{"storage_spare-capacity", "storage_empty-non-nil", "mut_Push", "mut_write every FlatCoords()[i]", "mut_bump ends", "mut_Reverse", "mut_SetCoords", "mut_TransformInPlace", "mut_Swap with a fresh geometry", "mut_SetSRID", "coord_clones", "bounds_clones", "mut_Bounds.Extend", "mut_Bounds.Set", "mut_Bounds.SetCoords"},
